@@ -3,14 +3,16 @@ import math
 
 from harness import dtwgen
 
-COQ_FILES = ["theories/BandTie.v", "theories/PyDist.v", "props/C01.v"]
-THEOREMS = [("DVProps.C01", "C01_lower_bound"), ("DVProps.C01", "C01_attained")]
+COQ_FILES = ["theories/BandTie.v", "theories/PyDist.v", "theories/PyDistProofs.v", "props/C01.v"]
+THEOREMS = [("DVProps.C01", "C01_lower_bound"), ("DVProps.C01", "C01_attained"),
+            ("DVProps.C01", "C01_code_model_is_spec")]
 TRUSTED_BASE = [
     "Coq 8.16.1 kernel (no native_compute)",
     "tools/translate_py.py (band/buffer expressions of dtw.distance regenerated into coq/gen/Gen_dtw.v)",
     "extraction (ExtrOcamlBasic only; Z/positive/nat stay inductive) + coq/extract/driver.ml",
-    "correspondence harness harness/props/C01.py; rolling-buffer loop skeleton of dtw.distance is tied by "
-    "correspondence only",
+    "correspondence harness harness/props/C01.py; the rolling-buffer loop skeleton of dtw.distance is modelled by hand "
+    "(PyDist.v, index arithmetic regenerated) and PROVED equal to the specification (C01_code_model_is_spec); the hand "
+    "model is tied to the code by correspondence (oracle command pydist)",
     "binary64 arithmetic is exact on the integer-valued input stream; math.sqrt correctly rounded",
 ]
 ASSUMPTIONS = ["theorems are over exact (integer) arithmetic; float rounding on arbitrary doubles is not modelled"]
